@@ -196,6 +196,23 @@ def b_set(ex, st, pos, kw, node, star, dstar):
     return val(st, o)
 
 
+def l_reduce(ex, st, pos, kw, node, star, dstar):
+    """functools.reduce(f, xs, init) over a list of statically known length: the exact fold"""
+    f, xs = pos[0], pos[1]
+    sp = ex.spine(st, xs)
+    if sp is None or len(pos) < 3:
+        raise Unsupported('reduce over a symbolic sequence / without an initial value')
+    states = [(st, pos[2])]; outs = []
+    for x in sp:
+        nxt = []
+        for s1, acc in states:
+            for s2, r in ex.call_value(s1, f, [acc, x], {}, node):
+                if r[0] == 'exc': outs.append((s2, r))
+                else: nxt.append((s2, r[1]))
+        states = nxt
+    return outs + [(s, ('val', v)) for s, v in states]
+
+
 def noop(ex, st, pos, kw, node, star, dstar):
     return val(st, NONE)
 
@@ -335,7 +352,7 @@ def install(ex):
     L.update({'builtins.len': b_len, 'builtins.isinstance': b_isinstance, 'builtins.callable': b_callable, 'builtins.str': b_str,
               'builtins.repr': b_repr, 'builtins.bool': b_bool, 'builtins.list': b_list, 'builtins.tuple': b_list, 'builtins.dict': b_dict,
               'builtins.type': b_type, 'builtins.iter': b_iter, 'builtins.hasattr': b_hasattr, 'builtins.enumerate': b_enumerate,
-              'builtins.int': b_int, 'builtins.float': b_float, 'builtins.bytes': b_bytes, 'builtins.set': b_set, 'builtins.frozenset': b_set,
+              'functools.reduce': l_reduce, 'builtins.int': b_int, 'builtins.float': b_float, 'builtins.bytes': b_bytes, 'builtins.set': b_set, 'builtins.frozenset': b_set,
               'time.time': l_time, 'jsonpickle.encode': l_encode_nondet, 'datetime.datetime.utcnow': l_utcnow, 'uuid.uuid1': l_uuid1,
               'collections.Counter': l_counter, 'collections.OrderedDict': l_ordereddict, 'threading.local': l_threadlocal,
               'six.text_type': b_str})
